@@ -81,4 +81,4 @@ R.contract("UndefinedMessage.__post_init__", trusted=True, params={"self": "Unde
                                              "self._avps == old(self._avps) and items(self._avps) == old(items(self._avps))")],
            modifies=["dyn:self", "*Avp._avps"],
            note="ASSUMED (read from the code): _assign_attr_values only sets attributes named after the AVPs and reads AVP values")
-R.assume("assumed contract: UndefinedMessage.__post_init__ (attribute exposure of untyped commands, C03.U1 not mechanised)")
+R.assume("assumed contract: UndefinedMessage.__post_init__ where specs/c03.py is not loaded (it is VERIFIED against the real body, with a functional step contract for _assign_attr_values, under C03 and C04)")
